@@ -21,7 +21,7 @@ for d in sorted(os.listdir(root)):
                  'yes' if r.get('confirmed_seed') else 'NO', (tier or 'MISSED') + (': ' + cell('; '.join(keys), 160) if keys else ''),
                  cell(m.get('note'), 200)))
 out = ["# Seeded breaks", "",
-       "Changes written by independent sub-agents that saw only the property text (three rounds; later rounds were told which files the",
+       "Changes written by independent sub-agents that saw only the property text (eleven rounds; later rounds were told which files the",
        "earlier ones touched). Each directory holds `patch.diff`, the demonstration, `run_demo.sh` and `meta.json` (what it needs to",
        "manifest, what was run). *confirmed* = applies to /repo HEAD at the time, builds, the 32 pinned tests pass, the demonstration fails",
        "with the patch and passes without it. *caught by* = tier of the property's own check (`bin/vcheck <ID> <tier>` with `VERIF_REPO` on a",
